@@ -11,8 +11,10 @@ import (
 	"runtime"
 	"runtime/debug"
 	"sort"
+	"strconv"
 	"strings"
 	"sync/atomic"
+	"syscall"
 	"time"
 )
 
@@ -245,14 +247,38 @@ func doWorker(e Engine, x *Ctx, tier string, seed uint64, w, n int, out string, 
 	if timeout == 0 {
 		timeout = 60 * time.Second
 	}
+	if d, err := time.ParseDuration(os.Getenv("VERIF_CASE_TIMEOUT")); err == nil && d > 0 {
+		timeout = d // testing the watchdog itself
+	}
+	if sc, err := strconv.Atoi(os.Getenv("VERIF_TIMEOUT_SCALE")); err == nil && sc > 1 {
+		timeout *= time.Duration(sc)
+	}
 	var current atomic.Int64
-	var startedAt atomic.Int64
+	var startedAt, cpuAtStart atomic.Int64
 	current.Store(-1)
+	// The watchdog budgets a case in CPU time of this process, not in wall time: on a busy machine a
+	// case that is merely slow must not be taken for one that does not terminate. A case that is
+	// blocked (no CPU consumed for a long stretch of wall time) or far beyond any plausible wall time
+	// is stopped as well.
 	go func() {
+		var lastCPU time.Duration
+		lastProgress := time.Now()
+		lastCase := int64(-1)
 		for {
 			time.Sleep(500 * time.Millisecond)
 			c := current.Load()
-			if c >= 0 && time.Since(time.Unix(0, startedAt.Load())) > timeout {
+			if c < 0 {
+				lastCase = -1
+				continue
+			}
+			cpu := processCPU()
+			if c != lastCase || cpu-lastCPU > 50*time.Millisecond {
+				lastCase, lastCPU, lastProgress = c, cpu, time.Now()
+			}
+			wall := time.Since(time.Unix(0, startedAt.Load()))
+			used := cpu - time.Duration(cpuAtStart.Load())
+			blocked := wall > timeout && time.Since(lastProgress) > 60*time.Second
+			if used > timeout || blocked || wall > 20*timeout {
 				// The watchdog never touches bw (owned by the main goroutine): it appends
 				// the hang marker through a second handle and leaves.
 				if g, err := os.OpenFile(out+".hang", os.O_CREATE|os.O_WRONLY, 0o644); err == nil {
@@ -278,6 +304,7 @@ func doWorker(e Engine, x *Ctx, tier string, seed uint64, w, n int, out string, 
 		}
 		os.WriteFile(out+".cur", []byte(fmt.Sprint(c.Index)), 0o644)
 		startedAt.Store(time.Now().UnixNano())
+		cpuAtStart.Store(int64(processCPU()))
 		current.Store(int64(c.Index))
 		t := NewTape(c.Seed)
 		res, hp := runCase(e, t, c, x)
@@ -448,6 +475,31 @@ func coordinate(e Engine, x *Ctx, o coordOpts) int {
 			break
 		}
 	}
+	// A case that exceeded its budget among fifteen other workers is run once more, alone and with
+	// eight times the budget, before anything is concluded: if it finishes, its result counts like
+	// any other; only a case that does not finish then is a hang.
+	var realHangs []int
+	for _, h := range hangs {
+		fmt.Fprintf(os.Stderr, "case %d exceeded the per-case budget; re-running alone with a larger budget\n", h)
+		out := filepath.Join(dir, fmt.Sprintf("lone%d.jsonl", h))
+		b, _ := json.Marshal([]int{h})
+		os.WriteFile(out+".todo", b, 0o644)
+		cmd := exec.Command(exe, append(selfArgs(e, o), "-worker", "0", "-workers", "1", "-out", out)...)
+		cmd.Env = append(os.Environ(), "VERIF_TIMEOUT_SCALE=8")
+		cmd.Stdout, cmd.Stderr = os.Stderr, os.Stderr
+		err := cmd.Run()
+		if _, herr := os.Stat(out + ".hang"); herr == nil {
+			realHangs = append(realHangs, h)
+		} else if err != nil {
+			fmt.Fprintf(os.Stderr, "case %d: the worker re-running it alone died: %v\n", h, err)
+			crashes = append(crashes, h)
+		} else {
+			outs = append(outs, out)
+		}
+	}
+	slowRerun := len(hangs) - len(realHangs)
+	hangs = realHangs
+
 	procs := make([]wproc, len(outs))
 	for i, out := range outs {
 		procs[i] = wproc{nil, out}
@@ -538,30 +590,19 @@ func coordinate(e Engine, x *Ctx, o coordOpts) int {
 	reported := 0
 	var violationNotes []string
 
-	// Hangs: re-run alone with a long budget before calling it a violation.
+	// Hangs: cases that did not finish even alone with eight times the budget.
+	if slowRerun > 0 {
+		total.Counters["slow_cases_rerun_alone"] += slowRerun
+	}
 	for _, h := range hangs {
 		c := plan[h]
-		fmt.Fprintf(os.Stderr, "case %d exceeded the per-case budget; re-running alone\n", h)
 		rf := &ReplayFile{Property: e.ID(), Tier: o.tier, VerifSeed: o.seed, Case: c, RepoTree: o.repoTree,
-			Violation: &Violation{Class: "hang", Message: "case did not terminate within the budget"}}
+			Violation: &Violation{Class: "hang", Message: "case did not terminate within the budget (neither among other workers nor alone with eight times the budget)"}}
 		path := writeReplay(o.replayDir, rf, "")
-		cmd := exec.Command(exe, append(selfArgs(e, o), "-replay", path)...)
-		cmd.Stdout, cmd.Stderr = os.Stderr, os.Stderr
-		done := make(chan error, 1)
-		cmd.Start()
-		go func() { done <- cmd.Wait() }()
-		select {
-		case <-done:
-			fmt.Fprintf(os.Stderr, "case %d terminated when run alone: machine too slow, inconclusive\n", h)
-			os.Remove(path)
-			infra = true
-		case <-time.After(5 * time.Minute):
-			cmd.Process.Kill()
-			fmt.Printf("VIOLATION property=%s replay=%s\n", e.ID(), path)
-			violationNotes = append(violationNotes, "hang case "+fmt.Sprint(h))
-			reported++
-			exit = exitViolation
-		}
+		fmt.Printf("VIOLATION property=%s replay=%s\n  class=hang\n", e.ID(), path)
+		violationNotes = append(violationNotes, "hang case "+fmt.Sprint(h))
+		reported++
+		exit = exitViolation
 	}
 	for _, h := range crashes {
 		c := plan[h]
@@ -772,6 +813,23 @@ func doReplay(e Engine, x *Ctx, path string) int {
 	} else {
 		t = ReplayTape(rf.Tape)
 	}
+	if rf.Violation != nil && rf.Violation.Class == "hang" {
+		// a recorded hang reproduces iff the case again fails to finish within eight times its budget
+		budget := 8 * e.Meta().CaseTimeout
+		if budget == 0 {
+			budget = 8 * time.Minute
+		}
+		cpu0, t0 := processCPU(), time.Now()
+		go func() {
+			for {
+				time.Sleep(time.Second)
+				if processCPU()-cpu0 > budget || time.Since(t0) > 4*budget {
+					fmt.Printf("VIOLATION property=%s replay=%s\n  class=hang\n  the case did not terminate within %v of CPU time\n", e.ID(), path, budget)
+					os.Exit(exitViolation)
+				}
+			}
+		}()
+	}
 	res, hp := runCase(e, t, rf.Case, x)
 	if hp != "" {
 		fmt.Fprintln(os.Stderr, "harness panic:", hp)
@@ -963,4 +1021,13 @@ func less(a, b []int) bool {
 		}
 	}
 	return false
+}
+
+// processCPU is the CPU time (user + system) this process has consumed so far.
+func processCPU() time.Duration {
+	var ru syscall.Rusage
+	if err := syscall.Getrusage(syscall.RUSAGE_SELF, &ru); err != nil {
+		return 0
+	}
+	return time.Duration(ru.Utime.Nano() + ru.Stime.Nano())
 }
